@@ -254,3 +254,89 @@ def progOk (c : Cfg) (stop : Nat) (ks : List Kind) (sched : Schedule) (i : Nat) 
   threadLabels c stop ks sched i == want && threadDone c stop ks sched i
 
 end Bptk.C18
+
+/-! ### Session lifecycle (wave 5): where the lock flag lives
+
+`begin-session`, `end-session` and a restore (`_set_state`) replace or drop `session_state` — on a thread of their
+own, possibly while a step-advancing request is between acquire and release.  This machine keeps of a request
+only what matters for the lock (`pre` → `holding` → `ended`) and adds the session: whether one exists and where
+the flag lives.  Mechanism facts (probed on every run):
+* `flagOnInstance`      the flag is an attribute of the instance (false: a key of `session_state`, so it is
+                        replaced by a fresh `False` with every new session state and gone without one);
+* `lockNeedsSession`    `lock()` does nothing while there is no session state;
+* `unlockNeedsSession`  `unlock()` does nothing while there is no session state;
+* `sessionReqExcluded`  `begin-session` / `end-session` / restore are refused while the flag is set. -/
+namespace Bptk.C18.Sess
+
+structure SCfg where
+  flagOnInstance : Bool
+  lockNeedsSession : Bool
+  unlockNeedsSession : Bool
+  sessionReqExcluded : Bool
+deriving DecidableEq, Repr
+
+inductive Phase where
+  | pre | holding | ended
+deriving DecidableEq, Repr
+
+/-- `acq i`: request `i` performs its test-and-set; `fin i`: request `i` ends (completion, error, client gone —
+every ending runs `unlock()`); the three session requests. -/
+inductive SEv where
+  | acq (i : Nat) | fin (i : Nat) | endS | beginS | restoreS
+deriving DecidableEq, Repr
+
+/-- `flag` is what `is_locked()` answers (a flag kept in a session state that no longer exists reads `False`). -/
+structure SState where
+  session : Bool
+  flag : Bool
+  ths : List Phase
+deriving DecidableEq, Repr
+
+def SState.init (session : Bool) (n : Nat) : SState := { session := session, flag := false, ths := List.replicate n .pre }
+
+/-- can `lock()` / `unlock()` write the flag right now? -/
+def canWrite (onInstance needs session : Bool) : Bool := if onInstance then (!needs || session) else session
+
+/-- a session request replaces / drops the state: the flag survives only on the instance. -/
+def sessionReq (c : SCfg) (s : SState) (session' : Bool) : SState :=
+  if c.sessionReqExcluded && s.flag then s
+  else { s with session := session', flag := if c.flagOnInstance then s.flag else false }
+
+def sstep (c : SCfg) (s : SState) : SEv → SState
+  | .acq i =>
+      match s.ths[i]? with
+      | some .pre =>
+          if s.flag then { s with ths := s.ths.set i .ended }
+          else { s with flag := canWrite c.flagOnInstance c.lockNeedsSession s.session, ths := s.ths.set i .holding }
+      | _ => s
+  | .fin i =>
+      match s.ths[i]? with
+      | some .holding =>
+          { s with flag := if canWrite c.flagOnInstance c.unlockNeedsSession s.session then false else s.flag,
+                   ths := s.ths.set i .ended }
+      | _ => s
+  | .endS => sessionReq c s false
+  | .beginS => sessionReq c s true
+  | .restoreS => sessionReq c s true
+
+def srun (c : SCfg) (s : SState) (sched : List SEv) : SState := sched.foldl (sstep c) s
+
+/-- what the harness observes of one event: `acq`: accepted / refused; session request: done / refused. -/
+def outcome (c : SCfg) (s : SState) : SEv → String
+  | .acq i => match s.ths[i]? with
+      | some .pre => if s.flag then "refused" else "accepted"
+      | _ => "noop"
+  | .fin i => match s.ths[i]? with
+      | some .holding => "ended"
+      | _ => "noop"
+  | _ => if c.sessionReqExcluded && s.flag then "refused" else "done"
+
+def strace (c : SCfg) : List SEv → SState → SState × List String
+  | [], s => (s, [])
+  | e :: rest, s =>
+      let r := strace c rest (sstep c s e)
+      (r.1, outcome c s e :: r.2)
+
+def holders (s : SState) : Nat := (s.ths.filter (· == .holding)).length
+
+end Bptk.C18.Sess
